@@ -616,6 +616,47 @@ def _refpair_rule(chk, prog):
                           "leaked" if keeps else "never owned by this thread"))
 
 
+def _transitref_rule(chk, prog):
+    """A value in transit through a thread channel is a malloc'ed buffer of marshalled bytes; every shared abstract
+    written into it holds one reference for the message.  Whoever throws such a buffer away without handing it to a
+    reader has to give those references back first - by reading the bytes back in JANET_MARSHAL_DECREF mode - or the
+    shared objects can never reach a count of zero."""
+    rule = "C08-TRANSITREF"
+    chk.rule(rule, "a transit buffer is freed only after its contents were read back (delivered to a reader, or in DECREF mode when nobody will read it)")
+    n = 0
+    for fn in prog.tus["ev.c"].funcs.values():
+        frees = []
+        for c in fn.calls("janet_buffer_deinit"):
+            if c.args and is_ref(strip_casts(c.args[0])):
+                frees.append(c)
+        if not frees or not any(c2.callee in ("janet_marshal", "janet_unmarshal") for c2 in fn.calls()):
+            continue
+        chk.analysed(fn)
+
+        def transfer(st, x):
+            if x.k == "call" and x.callee == "janet_unmarshal":
+                return st | frozenset(["read"])
+            if x.k == "call" and x.callee == "janet_marshal":
+                return st - frozenset(["read"])
+            return st
+        # may-analysis: the read-back sits in the OK arm of a janet_try, and the path that skips that arm is the one on
+        # which the read-back itself raised - an attempt on some path to the free is what can be required
+        IN, OUT = flow.forward(fn, frozenset(), transfer, lambda a, b: a | b)
+        for x, st in flow.states_at(fn, IN, transfer):
+            if x not in frees:
+                continue
+            n += 1
+            chk.instance(rule)
+            if "read" in st:
+                chk.ok(rule, "%s: transit buffer freed after its contents were read back" % fn.name)
+            else:
+                chk.violation(rule, "ev.c", fn.name, "free-unread", x.loc,
+                              "`%s` frees a transit buffer on a path on which its (possibly partial) contents were not read back: the "
+                              "references that marshalling took on shared abstracts (thread channels, locks) are never dropped and "
+                              "those objects are never released" % x.text()[:40])
+    chk.floor(rule, 2, n)
+
+
 _run_locks = run
 
 
@@ -868,6 +909,7 @@ def run(chk):   # noqa
     _globals_rule(chk, prog)
     _atomic_rule(chk, prog)
     _refpair_rule(chk, prog)
+    _transitref_rule(chk, prog)
     _msgrec_rule(chk, prog)
     _parkroot_rule(chk, prog)
     _payload_rule(chk, prog)
